@@ -20,6 +20,9 @@ Rules on the -O1 -fno-inline IR (every CNL function still a function):
     truncating one: no division operator of a non-native rounding mode is reachable from any to_chars_natural
     instantiation the integer entry points reach.  (With a rounding quotient the remainders leave [0, base) and
     characters outside the digit alphabet are written.)
+ R7 (the rescaling mechanism produces a result at all) every cycle of every loop of every cnl::_impl::descale
+    instantiation the entry points reach makes progress (vlib/idle.py): a cycle that neither stores nor changes a
+    loop-carried value is taken forever once it is taken twice.  Necessary for termination, not sufficient.
 Not decided: digit generation, truncation direction, exponent after rescaling (loops over run-time digits).
 """
 import re, os
@@ -104,6 +107,14 @@ def r5_judge(dn, rep_digits, rep_signed):
     return None, sig
 
 
+# R7 instances: positive and negative exponents, built-in and wide significands, both radices the property names
+R7_SRC = "".join('extern "C" void r7_%d(scaled_integer<%s, power<%d, %d>> const& v, char* f, char* l, std::to_chars_result* o) { *o = cnl::to_chars(f, l, v); }\n' % (i, rep, e, rx)
+                 for i, (rep, e, rx) in enumerate([("std::int64_t", 3, 2), ("std::int64_t", 40, 2), ("int", 1, 2), ("std::uint64_t", 10, 2), ("cnl::int128_t", 5, 2), ("std::int64_t", -3, 2),
+                                                   ("std::int64_t", -70, 2), ("cnl::uint128_t", -20, 2), ("int", 2, 10), ("int", -2, 10), ("std::int16_t", 7, 3)]))
+# positive control: a loop with a path that changes nothing
+R7_SRC += 'extern "C" long r7_control(long const& v) { long s = v; for (int n = 3; n != 0;) { if (s % 10 == 0) { s /= 10; continue; } if (s < 1000) { s *= 2; --n; } } return s; }\n'
+
+
 FORBIDDEN = [(r"^_ZNSolsE[a-z]$", "std::ostream::operator<<(arithmetic)"), (r"^_ZNSo9_M_insertI", "std::ostream::_M_insert<>"), (r"^_ZSt8to_chars", "std::to_chars"),
              (r"^_ZNSt7__cxx119to_stringE", "std::to_string"), (r"^v?s?n?printf$", "printf family"), (r"__to_chars", "std::__detail::__to_chars")]
 
@@ -176,6 +187,55 @@ def run(tier, seed, work):
             if bad:
                 r.violation("R6/" + e, "%s: the digit generator %s divides with a rounding (non-truncating) operator: %s" % (e, dem[x][:160], dem[bad[0]][:200]),
                             {"entry": e, "generator": dem[x], "rounding_division": [dem[y] for y in bad[:4]]})
+    # R7: -O0 IR promoted to SSA (sroa, mem2reg) without any CFG simplification, so that a source-level branch that
+    # skips every update is still a path (at -O1 clang if-converts such updates into selects)
+    from vlib import idle
+    src7, raw7, ssa7 = os.path.join(work, "t7.cpp"), os.path.join(work, "t7.raw.ll"), os.path.join(work, "t7.ll")
+    open(src7, "w").write(tc.PRELUDE["clang"] + "using namespace cnl;\n" + R5_SRC + R7_SRC)
+    rc, so, se, cmd = tc.clang_ll(src7, raw7, "o0", extra=["-Xclang", "-disable-O0-optnone", "-DNDEBUG"])
+    if rc != 0:
+        raise tc.AnalysisBroken("R7 TU does not compile: " + se[:1500])
+    rc, so, se, cmd = tc.opt_passes(raw7, ssa7, "function(sroa,mem2reg)")
+    if rc != 0:
+        raise tc.AnalysisBroken("opt failed on the R7 unit: " + se[:800])
+    mod7 = ir.parse_module(open(ssa7).read())
+    dem7 = tc.demangle(list(mod7.functions) + [d[1:] for d in mod7.declares])
+    edges7 = {}
+    for n, f in mod7.functions.items():
+        edges7[n] = set(m.group(1) for lab in f.order for l in f.blocks[lab] for m in re.finditer(r"(?:call|invoke)\s[^@]*@([\w.$]+)\(", l))
+
+    def reach7(s0):
+        seen, st = set(), [s0]
+        while st:
+            x = st.pop()
+            for y in edges7.get(x, ()):
+                if y not in seen:
+                    seen.add(y)
+                    st.append(y)
+        return seen
+    pure, taken = idle.purity(mod7)
+    n_r7, n_r7_loops = 0, 0
+    try:
+        cyc, nl = idle.idle_cycles(mod7, mod7.functions["r7_control"], pure, taken)
+        if not cyc:
+            r.broke("R7 control: the idle path of the control loop was not found")
+    except (KeyError, ValueError) as e:
+        r.broke("R7 control failed: %r" % (e,))
+    seen_ds = set()
+    for e in sorted(n for n in mod7.functions if (n.startswith("r7_") and n != "r7_control") or n.startswith("r5_") and n != "r5_control"):
+        for x in reach7(e):
+            if x in mod7.functions and dem7.get(x, "").startswith("auto cnl::_impl::descale<") and "lambda" not in dem7[x] and x not in seen_ds:
+                seen_ds.add(x)
+                try:
+                    cyc, nl = idle.idle_cycles(mod7, mod7.functions[x], pure, taken)
+                except ValueError as ex:
+                    r.broke("R7: %s: %s" % (dem7[x][:120], ex))
+                    continue
+                n_r7 += 1
+                n_r7_loops += nl
+                for header, blocks in cyc:
+                    r.violation("R7/" + dem7[x][:100], "%s: the loop at block %s has a cycle (%s) that stores nothing and changes no loop-carried value: once taken twice it is taken forever (to_chars does not return)" % (dem7[x][:160], header, " -> ".join(blocks)),
+                                {"function": dem7[x], "cycle": blocks, "ir": mod7.functions[x].text()}, finding_key="R7/idle-cycle/descale")
     entries = [n for n in mod.functions if n.startswith("e_")]
     ok_entries, samples = 0, []
     for e in sorted(entries):
@@ -252,11 +312,13 @@ def run(tier, seed, work):
     common.floor_check(r, "to_chars_static instantiations inspected", n_static, 5)
     common.floor_check(r, "R5 working-significand instances judged", n_r5, len(REPS))
     common.floor_check(r, "R6 digit-generator instances inspected", n_r6, len(R6_REPS))
+    common.floor_check(r, "R7 descale instantiations inspected", n_r7, 20)
+    common.floor_check(r, "R7 loops inspected", n_r7_loops, 20)
     r.coverage = {
         "explanation": "Decided: the last sentence (the fixed-capacity entry points format through cnl::to_chars on the same value: reachability, forbidden-formatter and argument/derivation rules on -O1 -fno-inline IR) and one structural necessary condition of the sign/magnitude clause (R5: the working significand type of every to_chars<Rep> instantiation represents all of Rep). Digit generation, truncation direction and exponents are not decided.",
         "evaluations": len(entries) + n_static + n_r5 + n_r6, "distinct_nontrivial": ok_entries + n_static + n_r5 + n_r6,
         "rule": "non-trivial = entry point for which R1 and R2 hold, or to_chars_static instantiation for which R3 was evaluated",
-        "r5_instances": n_r5, "r6_generators": n_r6, "entry_points": len(entries) - 1, "entry_points_ok": ok_entries, "to_chars_static_instances": n_static,
+        "r5_instances": n_r5, "r6_generators": n_r6, "r7_descale_instances": n_r7, "r7_loops": n_r7_loops, "entry_points": len(entries) - 1, "entry_points_ok": ok_entries, "to_chars_static_instances": n_static,
         "samples": samples[:6], "exhaustive": False,
     }
     return r.finish()
